@@ -205,7 +205,7 @@ def nextHostOnly (s : String) : Bool := s == "none" || s.startsWith "simple:" ||
     C13_query_result_stops_requests, C13_first_result_wins, C13_result_iff_completed, C13_cancel_budget) -/
 
 structure CReplay where
-  c : ExecutorConc.MC
+  k : ExecutorConc.MK
   hostOf : List Nat            -- host (1-based position in the iterator's order) of each execution's last attempt
   gotR : Bool := false
   bad : Option String := none
@@ -216,12 +216,15 @@ def showCRes : ExecutorConc.CRes → String
 def parseCRes (s : String) : Option Res :=
   if s == "ok" then some .ok else if s == "l" then some .logical else parseRes s
 
-/-- what the harness sees when execution `i` takes the step that leads from `c` to `c'` -/
-def stepSeen (nhosts : Nat) (c c' : ExecutorConc.MC) (i : Nat) (hostOf : List Nat) : String × Nat :=
+/-- what the harness sees when execution `i` takes the step that leads from `k` to `k'`: a request arriving at a
+    host with a consistency level, an attempt that reached no server, or the execution ending -/
+def stepSeen (nhosts : Nat) (k k' : ExecutorConc.MK) (i : Nat) (hostOf : List Nat) : String × Nat :=
+  let c := k.c
+  let c' := k'.c
   match c'.m.exs[i]? with
   | some .inflight =>
       let h := if c'.m.left < c.m.left then nhosts - c.m.left + 1 else hostOf.getD i 0
-      (s!"s{h}", h)
+      (s!"s{h}@{k'.reqCons.headD 0}", h)
   | some .done =>
       -- an attempt that reached no server was counted (and, taken from the iterator, has used up a host)
       if c'.m.cnt > c.m.cnt then ("d", if c'.m.left < c.m.left then nhosts - c.m.left + 1 else hostOf.getD i 0)
@@ -232,16 +235,16 @@ def replayTok (pol : Option Policy) (derived : Bool) (nhosts e : Nat) (st : CRep
   if st.bad.isSome then st
   else
     let fail (why : String) : CReplay := { st with bad := some s!"{why}@{tok}" }
-    let c := st.c
+    let c := st.k.c
     match tok.splitOn ":" with
-    | ["X"] => { st with c := ExecutorConc.stepC pol derived c .callerCancel }
+    | ["X"] => { st with k := ExecutorConc.stepK pol derived st.k .callerCancel }
     | ["R", res] =>
         if st.gotR then fail "second-result"
         else match c.result with
           | none => fail "result-before-any-completion"
           | some r =>
             if showCRes r != res then fail s!"not-the-first-result:{showCRes r}"
-            else { st with c := ExecutorConc.stepC pol derived c .execCancel, gotR := true }
+            else { st with k := ExecutorConc.stepK pol derived st.k .execCancel, gotR := true }
     | [a, out] =>
         let kind := a.toList.headD ' '
         match (String.ofList (a.toList.drop 1)).toNat? with
@@ -255,44 +258,46 @@ def replayTok (pol : Option Policy) (derived : Bool) (nhosts e : Nat) (st : CRep
               | _, _ => false
             if !okState then fail "step-not-enabled"
             else
-              let c' := ExecutorConc.stepC pol derived c (.ex (if kind == 'L' then .launch i else .decide i))
-              let (want, h) := stepSeen nhosts c c' i st.hostOf
+              let k' := ExecutorConc.stepK pol derived st.k (.ex (if kind == 'L' then .launch i else .decide i))
+              let (want, h) := stepSeen nhosts st.k k' i st.hostOf
               if want != out then
                 -- a request where the machine sends none, after the context of the attempts is done
                 if c.attDone derived && out.startsWith "s" then fail s!"request-after-cancellation:{want}"
                 else fail s!"expected:{want}"
-              else { st with c := c', hostOf := st.hostOf.set i h }
+              else { st with k := k', hostOf := st.hostOf.set i h }
           else if kind == 'C' || kind == 'c' then
             match c.m.exs[i]?, parseCRes out with
             | some .inflight, some r =>
                 if r == .logical && !c.attDone derived then fail "context-error-without-cancellation"
-                else { st with c := ExecutorConc.stepC pol derived c (.ex (.complete i r)) }
+                else { st with k := ExecutorConc.stepK pol derived st.k (.ex (.complete i r)) }
             | _, _ => fail "completion-not-enabled"
           else fail "bad-token"
     | _ => fail "bad-token"
 
-def speccOp (kind idem pol a nh events nreq att obsInfo : String) : String :=
-  match parseKind kind, stmtIdempotent kind idem, parsePolicy pol, a.toNat?, nh.toNat?, nreq.toNat?, att.toNat? with
-  | some k, some idm, some p, some sa, some hosts, some n, some cntEnd =>
+def speccOp (kind idem pol a nh cons0 events nreq att obsInfo consEnd : String) : String :=
+  match parseKind kind, stmtIdempotent kind idem, parsePolicy pol, a.toNat?, nh.toNat?, nreq.toNat?, att.toNat?,
+        cons0.toNat?, consEnd.toNat? with
+  | some k, some idm, some p, some sa, some hosts, some n, some cntEnd, some cs0, some csEnd =>
     let e := maxExecutions idm sa
     -- `Conn.executeQuery` runs the attempt under the executor's context, `Conn.executeBatch` under `batch.Context()`
     let derived := k == .query
     let toks := events.splitOn ","
     let arrived := (toks.filterMap fun t => if t.startsWith "A" then (t.drop 1).toNat? else none).headD 0
-    let st0 : CReplay := { c := ExecutorConc.initC 0 hosts e, hostOf := List.replicate e 0 }
+    let st0 : CReplay := { k := ExecutorConc.initK 0 hosts e cs0, hostOf := List.replicate e 0 }
     let st := (toks.filter fun t => !t.startsWith "A").foldl (replayTok p derived hosts e) st0
     if arrived > e then s!"reject:too-many-executions:{arrived}"
     else match st.bad with
     | some why => s!"reject:{why}"
     | none =>
-      let m := st.c.m
+      let m := st.k.c.m
       if !st.gotR then "reject:no-result"
       else if !((List.range arrived).all fun i => m.exs[i]? == some .done) then "reject:execution-not-finished"
       else if n != m.sent then s!"reject:requests:{n}!={m.sent}"
       else if cntEnd != m.cnt then s!"reject:attempts:{cntEnd}!={m.cnt}"
       else if obsInfo != (if m.cnt == 0 then "none" else s!"0-{m.cnt - 1}") then s!"reject:attempt-numbers:{obsInfo}"
+      else if csEnd != st.k.cons then s!"reject:consistency-afterwards:{csEnd}!={st.k.cons}"
       else "accept"
-  | _, _, _, _, _, _, _ => "bad-op"
+  | _, _, _, _, _, _, _, _, _ => "bad-op"
 
 /-! ### `rt` / `att`: the built-in policies' GetRetryType / Attempt on error values and attempt counts -/
 
@@ -408,8 +413,8 @@ def step (_ : Unit) (ws : List String) : Unit × String :=
             s!"reject:attempt-numbers:{obsInfo}"
           else "accept"
       | _, _, _, _, _, _, _ => "bad-op"
-  | ["specc", kind, idem, pol, a, nh, _ctx, events, nreq, att, obsInfo] =>
-      speccOp kind idem pol a nh events nreq att obsInfo
+  | ["specc", kind, idem, pol, a, nh, _ctx, cons0, events, nreq, att, obsInfo, consEnd] =>
+      speccOp kind idem pol a nh cons0 events nreq att obsInfo consEnd
   | ["met", _kind, recs, ends] => metOp recs ends
   | ["rt", pol, err] => rtOp pol err
   | ["att", pol, att, c0] => attOp pol att c0
